@@ -89,7 +89,7 @@ CHECKS = {
  "C12": ("model_checking",
          "explicit-state search over role rotations (saturating) + full message-type x signer matrix per state",
          "L1: every role assignment reachable by UpdateProposer/UpdateChallenger (to X or X2, by governance or by the current holder) on two bridges is enumerated (the state space saturates at 16 assignments); L2: admin changes, executor-list changes (both through ExecuteMessages), bridge-info binding and an executor-change plan executed by the real EndBlocker (saturates at 36 states). In every state every message type of the module is delivered by every signer (governance/authority, every current and past role holder, batch submitter, creator, stranger), built so that it would succeed but for authorization; oracle = the property's role table on the model's current holders (allowed => succeeds, also for a new holder immediately; otherwise fails with an unchanged digest), signer read back through GetMsgV1Signers; ExecuteMessages batches are all-or-nothing with authority-only inner signers; SetBridgeInfo cannot re-point bridge id, address, L1 chain id or a set L1 client id.",
-         "Trusted: as C11/C06. UpdateOracle is probed for its authorization class only (its data path is C15).",
+         "Trusted: as C11/C06. UpdateOracle carries a fully signed commit wherever the L1 client is bound and a host validator set is recorded; elsewhere only its authorization class is probed.",
          "DESIGN.md §6 C12"),
  "C15": ("model_checking",
          "explicit-state search over update/refresh histories + exhaustive vote-shape product per state",
